@@ -513,7 +513,7 @@ pub fn run_mode(opts: &Options, prop: &str) -> Report {
                     // whatever the client keeps per PEER about the abandoned branch has to go when
                     // that peer's proved state is reorganised, not only when the store is rolled back
                     let one_switch = sc.steps.iter().filter(|s| matches!(s, Step::Switch(_))).count() == 1;
-                    let leaving = prop == "C04" && one_switch && n_peers >= 2 && serving != 0 && [7u64, 10, 15].contains(&(*seed % 16)) && !first_left;
+                    let leaving = prop == "C04" && one_switch && n_peers >= 2 && serving != 0 && [6u64, 7, 10, 14, 15].contains(&(*seed % 16)) && !first_left;
                     let tip_on_new = {
                         let tip = node.i().storage.get_tip_header().calc_header_hash();
                         branches[serving].chain.number_of_hash(&tip).is_some() && branches[0].chain.number_of_hash(&tip).is_none()
@@ -523,6 +523,9 @@ pub fn run_mode(opts: &Options, prop: &str) -> Report {
                         node.drop_unconnected = true;
                         node.disconnect(peer);
                         rep.count_class("first-peer-leaves-before-the-second-follows");
+                        if debug {
+                            eprintln!("  seed {}: the first peer leaves ({} peers)", seed, n_peers);
+                        }
                     }
                     let hold = leaving && !first_left;
                     if let Some(p) = if hold { None } else { pending_switch.pop() } {
